@@ -43,7 +43,9 @@ for d in sorted(glob.glob(os.path.join(HERE, "seeded", "C*-[mwx]*"))):
     meta["confirmed_by_integrator"] = "patch applied to a scratch worktree at %s; `tools/try_seed.py seeded/%s %s %s` on %s" % (
         used, name, used, " ".join(props), datetime.datetime.utcnow().strftime("%Y-%m-%d %H:%M UTC"))
     meta["detected_by"] = det
-    meta["detection"] = {p: [x for x in v.get("lines", []) if x.startswith("VIOLATION")][:4] for p, v in res.items()}
+    # concrete replays first (a check may print several stale-model lines before the failing input)
+    meta["detection"] = {p: sorted([x for x in v.get("lines", []) if x.startswith("VIOLATION")], key=lambda x: "no-failing-input-found" in x)[:4]
+                         for p, v in res.items()}
     meta["example_replay_lines"] = [l.strip() for l in r.stdout.split("\n") if l.strip().startswith("['")][:3]
     json.dump(meta, open(os.path.join(d, "meta.json"), "w"), indent=1)
     concrete = any("no-failing-input-found" not in x for v in meta["detection"].values() for x in v)
